@@ -136,10 +136,14 @@ def canon(obj, _depth=0):
             return ["index", canon_index(obj)]
     except ImportError:  # pragma: no cover
         pass
-    if callable(obj):
-        return ["callable", describe_callable(obj)]
+    import types as _types
+
+    if isinstance(obj, _types.ModuleType):
+        return "module:" + obj.__name__
     if isinstance(obj, type):
         return "type:" + obj.__module__ + "." + obj.__qualname__
+    if callable(obj):
+        return ["callable", describe_callable(obj)]
     # unknown object: never let a memory address into a canonical form
     d = getattr(obj, "__dict__", None)
     if isinstance(d, dict) and d:
@@ -185,7 +189,7 @@ def describe_callable(f) -> dict:
         if isinstance(v, str):
             d[attr] = v
     code = getattr(f, "__code__", None)
-    if code is not None:
+    if code is not None and hasattr(code, "co_code"):
         d["code"] = code_hash(code)
     info = getattr(f, "__info__", None)
     if info is not None:
